@@ -9,8 +9,8 @@
 #include "vsched.h"
 
 // ---- scenario rows ---------------------------------------------------------------------------------
-enum { F_2BLK, F_3BLK, F_BADCHECK_LAST, F_BAD_FIRST, F_TRUNC, F_UNSIZED_MID, F_EMPTY_MID, F_BADHDR, F_BADINDEX, F_BCJ_BAD, F_2STREAMS, F_BIGBLK, F_BAD_MID3, F_UNSUP_2ND, F_INITFAIL_3RD, F_4TRUNC, F_BAD1_UNSIZED2, F_2GROW, F_2DICT, F_N };
-static const char *FN[] = { "2blk", "3blk", "badcheck-last", "bad-first", "trunc-mid", "unsized-mid", "empty-mid", "bad-blockheader", "bad-index", "bcj-bad-payload", "2streams+pad", "big-40k", "bad-mid-of-3", "unsupported-filter-2nd", "filter-init-fails-3rd", "4blk-trunc-in-4th", "bad-first-then-unsized", "2blk-second-bigger", "2blk-second-needs-more-memory" };
+enum { F_2BLK, F_3BLK, F_BADCHECK_LAST, F_BAD_FIRST, F_TRUNC, F_UNSIZED_MID, F_EMPTY_MID, F_BADHDR, F_BADINDEX, F_BCJ_BAD, F_2STREAMS, F_BIGBLK, F_BAD_MID3, F_UNSUP_2ND, F_INITFAIL_3RD, F_4TRUNC, F_BAD1_UNSIZED2, F_2GROW, F_2DICT, F_2DIFF, F_N };
+static const char *FN[] = { "2blk", "3blk", "badcheck-last", "bad-first", "trunc-mid", "unsized-mid", "empty-mid", "bad-blockheader", "bad-index", "bcj-bad-payload", "2streams+pad", "big-40k", "bad-mid-of-3", "unsupported-filter-2nd", "filter-init-fails-3rd", "4blk-trunc-in-4th", "bad-first-then-unsized", "2blk-second-bigger", "2blk-second-needs-more-memory", "2blk-different-sizes" };
 typedef struct { int file, threads, inchunk, outchunk, timeout; uint32_t flags; uint64_t mlt, mls; int raise, early, reinit, probes; int bp, bt, bs; int tier; int mode; } row;	// mode: 0 normal, 1 truncation sweep over the second Block, 2 drain with no input after the Blocks were supplied
 #define NOLIM UINT64_MAX
 // tier: 0 = quick+thorough, 1 = thorough only.  bp/bt/bs = preemption / timeout / spurious bounds at quick; thorough adds 1 to bp for 2-thread rows.
@@ -67,6 +67,9 @@ static const row ROWS[] = {
 	{ F_2BLK,           2, 3,  2,  0, 0,                    NOLIM, NOLIM, 0,    0,    0,     0,     1, 0, 0, 0, 1 },
 	{ F_3BLK,           3, 0,  0,  0, 0,                    NOLIM, NOLIM, 0,    0,    0,     0,     0, 0, 0, 0, 5 },	// the k-th pthread_create fails (k = 1..threads): LZMA_MEM_ERROR, then the same handle decodes the file
 	{ F_3BLK,           2, 7,  2,  0, 0,                    NOLIM, NOLIM, 0,    0,    0,     0,     1, 0, 0, 0, 5 },
+	{ F_2DIFF,          2, 13, 0,  0, 0,                    NOLIM, NOLIM, 0,    0,    -1,    0,     1, 0, 0, 0 },	// re-init after call k while Blocks of different sizes are in flight (13-byte pieces: the fourth call ends right after the second Block was handed to its worker)
+	{ F_2DIFF,          2, 0,  3,  0, 0,                    NOLIM, NOLIM, 0,    0,    -1,    0,     0, 0, 0, 0 },
+	{ F_2DIFF,          2, 7,  0,  0, 0,                    NOLIM, NOLIM, 0,    -1,   0,     0,     1, 0, 0, 0 },
 	{ F_2DICT,          2, 60, 0,  0, 0,                    NOLIM, 100000, 1,   0,    0,     0,     1, 0, 0, 0 },	// LZMA_MEMLIMIT_ERROR for the second Block while the first is still being decoded and input is pending (LZMA_RUN); then the limit is raised
 	{ F_2DICT,          2, 60, 3,  0, 0,                    NOLIM, 100000, 1,   0,    0,     0,     1, 0, 0, 0 },
 	{ F_2DICT,          2, 0,  0,  1, 0,                    NOLIM, 100000, 1,   0,    0,     0,     1, 1, 0, 0 },
@@ -113,6 +116,7 @@ static int build_file(int kind) {
 	if (kind == F_UNSIZED_MID || kind == F_BAD1_UNSIZED2) b[1].sized = 0;
 	if (kind == F_INITFAIL_3RD) b[2].chain = 3;
 	if (kind == F_EMPTY_MID) { b[1].len = 0; b[2].data = plain + bsz; }
+	if (kind == F_2DIFF) b[1].len = 20;	// output buffers of two sizes are in the queue at the same time (a cached buffer of the other size is freed, not recycled)
 	if (kind == F_2DICT) b[1].chain = 4;	// the second Block declares a 64 KiB dictionary: with memlimit_stop between the two needs the decoder must first deliver the first Block, then stop
 	if (kind == F_2GROW) { uint32_t x = 77; memset(plain, 'a', 60); for (int i = 60; i < 120; i++) { x = x * 1664525u + 1013904223u; plain[i] = (unsigned char)(x >> 24); } b[0] = (mk_block){ plain, 60, 1, 0 }; b[1] = (mk_block){ plain + 60, 60, 1, 0 }; }	// same uncompressed size (the output buffer of the first Block is recycled for the second), but the second Block's compressed data is longer than the whole first Block: every input amount the first Block ever had occurs again
 	plen = 0; for (int i = 0; i < nb; i++) plen += b[i].len;
